@@ -19,6 +19,8 @@ pub enum Mode {
     Breaks(Vec<BreakPoint>),
     /// every boundary of the baseline in turn, one at a time (single-fault exhaustive for this program)
     AllSingletons(Vec<Inspect>),
+    /// every subset of the boundaries of a short run (<= 10 boundaries): exhaustive multi-fault placement
+    AllSubsets(Vec<Inspect>),
     /// at every STOP: `<var> = <value>` then CONT, compared with the program in which STOP is replaced by that assignment
     AssignAtStop(String, f64),
 }
@@ -115,7 +117,7 @@ impl Prop for C07 {
     fn meta() -> Meta {
         Meta {
             level: "fault_enumeration",
-            rule: "Programs from the C03 grammar plus INPUT and STOP, with a reply script. Baseline: RUN to completion, STOPs answered by CONT at once. Perturbed: identical, but at a set K of turn boundaries (running or awaiting input) the host breaks in, issues 0-3 inspection lines that assign nothing (PRINT of scalars / existing cells / defined functions / RND(0), LIST; a share fail: 1/0, string arithmetic, bad subscript of an existing array, a function whose body fails, a function that overflows the frame cap, a call with an ill-typed argument, a syntax error) and then CONT. Mode AllSingletons places the break at EVERY boundary of the run in turn (single-fault exhaustive for that program, up to 400 boundaries; always in thorough, 1 in 6 programs in quick); mode Breaks samples subsets of size 1-6; mode AssignAtStop compares `v = e` + CONT at each STOP with the program that has the assignment in place of STOP. Oracle: observable streams (prints, request positions, REENTER/EXTRA IGNORED, STOP notices, final error kind+line) equal record for record, final probe snapshot equal. distinct_nontrivial = distinct (program, break set, inspections) hashes among perturbed runs in which >= 1 break fired and the program ran >= 5 boundaries.",
+            rule: "Programs from the C03 grammar plus INPUT and STOP, with a reply script. Baseline: RUN to completion, STOPs answered by CONT at once. Perturbed: identical, but at a set K of turn boundaries (running or awaiting input) the host breaks in, issues 0-3 inspection lines that assign nothing (PRINT of scalars / existing cells / defined functions / RND(0), LIST; a share fail: 1/0, string arithmetic, bad subscript of an existing array, a function whose body fails, a function that overflows the frame cap, a call with an ill-typed argument, a syntax error) and then CONT. Mode AllSingletons places the break at EVERY boundary of the run in turn (single-fault exhaustive for that program, up to 400 boundaries; half of the programs in thorough, 1 in 6 in quick); mode AllSubsets enumerates ALL 2^n - 1 non-empty break sets of runs with n <= 10 boundaries (multi-fault exhaustive for that program); mode Breaks samples subsets of size 1-6 of longer runs; mode AssignAtStop compares `v = e` + CONT at each STOP with the program that has the assignment in place of STOP. Oracle: observable streams (prints, request positions, REENTER/EXTRA IGNORED, STOP notices, final error kind+line) equal record for record, final probe snapshot equal. distinct_nontrivial = distinct (program, break set, inspections) hashes among perturbed runs in which >= 1 break fired and the program ran >= 5 boundaries.",
             real: &["abasic-core Interpreter (break_at_current_location, CONT, immediate lines at a breakpoint, frame handling of failed calls)"],
             stub: &["the host (break timing, inspection lines, replies)"],
             assumptions: &[
@@ -131,13 +133,14 @@ impl Prop for C07 {
                 "reach.break_inside_gosub_depth>=2",
                 "reach.break_inside_for",
                 "reach.all_singletons_program",
+                "reach.all_subsets_program",
             ],
         }
     }
 
     fn runs(tier: Tier) -> u64 {
         match tier {
-            Tier::Quick => 60_000,
+            Tier::Quick => 50_000,
             Tier::Thorough => 1_500_000,
         }
     }
@@ -153,6 +156,15 @@ impl Prop for C07 {
         let mode_pick = rng.below(12);
         if mode_pick == 0 {
             k.stop = true;
+        }
+        let want_subsets = match ctx.tier {
+            Tier::Thorough => mode_pick == 7 || mode_pick == 8,
+            Tier::Quick => mode_pick == 3,
+        };
+        if want_subsets {
+            // short runs, so that all 2^n break sets are affordable
+            k.max_lines = 2 + rng.usize(4);
+            k.for_loops = false;
         }
         let mut grng = rng.fork();
         let (lines, info) = Gen::new(&mut grng, k).program();
@@ -174,7 +186,13 @@ impl Prop for C07 {
             Tier::Thorough => mode_pick >= 1 && mode_pick <= 6,
             Tier::Quick => mode_pick == 1 || mode_pick == 2,
         };
-        let mode = if mode_pick == 0 {
+        let subsets = match ctx.tier {
+            Tier::Thorough => mode_pick == 7 || mode_pick == 8,
+            Tier::Quick => mode_pick == 3,
+        };
+        let mode = if subsets {
+            Mode::AllSubsets(inspections(rng))
+        } else if mode_pick == 0 {
             let v = rng.pick(NUM_VARS).to_string();
             Mode::AssignAtStop(v, rng.below(9) as f64)
         } else if all {
@@ -253,6 +271,44 @@ impl Prop for C07 {
                     }
                     if let Some(mut v) = compare_obs("C07", "baseline", &bb, "perturbed", &pp, false, true) {
                         v.detail = format!("[break at boundary {k}] {}", v.detail);
+                        return Some(v);
+                    }
+                }
+                None
+            }
+            Mode::AllSubsets(insp) => {
+                let n = base.boundaries;
+                if n == 0 || n > 10 || base.capped {
+                    // too long for exhaustive subsets: fall back to every singleton
+                    let c2 = Case { prog: c.prog.clone(), mode: Mode::AllSingletons(insp.clone()) };
+                    return Self::execute(&c2, ctx);
+                }
+                ctx.count("reach.all_subsets_program");
+                for mask in 1u32..(1u32 << n) {
+                    let pts: Vec<BreakPoint> = (0..n)
+                        .filter(|k| mask & (1 << k) != 0)
+                        .map(|k| BreakPoint { at: k, inspections: insp.clone() })
+                        .collect();
+                    let extra = pts.len() as u32 * 2;
+                    let p = match run_once(&c.prog, &c.prog.lines, &pts, None, cap + extra, ctx) {
+                        Ok(o) => o,
+                        Err(mut v) => {
+                            v.detail = format!("[breaks at boundaries mask {mask:#b}] {}", v.detail);
+                            return Some(v);
+                        }
+                    };
+                    ctx.count("reach.subset_placement");
+                    if p.breaks_fired >= 2 {
+                        ctx.nontrivial(prog_hash ^ fnv(format!("subset{mask}|{:?}", insp).as_bytes()));
+                    }
+                    let mut pp = p;
+                    let mut bb = base.clone();
+                    if pp.capped {
+                        pp.capped = true;
+                        bb.capped = true;
+                    }
+                    if let Some(mut v) = compare_obs("C07", "baseline", &bb, "perturbed", &pp, false, true) {
+                        v.detail = format!("[breaks at boundaries mask {mask:#b}] {}", v.detail);
                         return Some(v);
                     }
                 }
@@ -353,6 +409,18 @@ impl Prop for C07 {
                 }
             }
             Mode::AssignAtStop(..) => {}
+            Mode::AllSubsets(insp) => {
+                // reproduce with explicit break sets: singletons and pairs
+                for a in 0..10u32 {
+                    out.push(Case { prog: c.prog.clone(), mode: Mode::Breaks(vec![BreakPoint { at: a, inspections: insp.clone() }]) });
+                    for b in (a + 1)..10u32 {
+                        out.push(Case {
+                            prog: c.prog.clone(),
+                            mode: Mode::Breaks(vec![BreakPoint { at: a, inspections: insp.clone() }, BreakPoint { at: b, inspections: insp.clone() }]),
+                        });
+                    }
+                }
+            }
         }
         for p in shrink_prog_case(&c.prog) {
             out.push(Case {
